@@ -344,9 +344,11 @@ fn arith(case: &Value, ty: &str) -> Value {
             }
             ("relative", _) => {
                 // bounds are given scaled by `scale` (a power of two): x = X / scale
+                // optional "dexp": both intervals additionally scaled by 2^-dexp (the relative interval is invariant)
                 let s = c["scale"].as_i64().unwrap() as f64;
-                let a: Interval<f64> = mk_num(&c["a"], &|v| v as f64 / s);
-                let b: Interval<f64> = mk_num(&c["b"], &|v| v as f64 / s);
+                let t = (2f64).powi(-(c.get("dexp").and_then(|x| x.as_i64()).unwrap_or(0) as i32));
+                let a: Interval<f64> = mk_num(&c["a"], &|v| v as f64 / s * t);
+                let b: Interval<f64> = mk_num(&c["b"], &|v| v as f64 / s * t);
                 let r = a.relative_to(&b);
                 unmk_num(&r, &|x: f64| { let y = x * s; if y.fract() == 0.0 && y.abs() < 1e9 { Some(y as i64) } else { None } })
             }
